@@ -88,7 +88,7 @@ def _decl(rng):
         grp = rng.randrange(ng) if ng and rng.random() < 0.6 else None
         mv = _word(rng)[:50].encode() if rng.random() < 0.4 else None
         if kind == "t":
-            o = optgen.T(nm, short, rev=rng.random() < 0.5, default=rng.choice([None, 0, 1]), env=env,
+            o = optgen.T(nm, short, rev=rng.random() < 0.5, default=rng.choice([None, 0, 1, 1, 2, 3, -1]), env=env,
                          group=grp, desc=desc)
         elif kind == "o":
             o = optgen.O(nm, short, default=_word(rng, True)[:50].encode() if rng.random() < 0.5 else None,
